@@ -76,6 +76,13 @@ type implRun struct {
 	Stub     bool
 	Res      *core.TLCResult
 	States   map[string]bool
+	Edges    map[string]bool
+}
+
+type implEdge struct {
+	G    int       `json:"g"`
+	From implState `json:"from"`
+	To   implState `json:"to"`
 }
 
 // modelCheckImpl runs TLC on MockImpl for one scenario.
@@ -101,7 +108,18 @@ CHECK_DEADLOCK TRUE
 	if err != nil {
 		return nil, err
 	}
-	run := &implRun{Scenario: scn, Stub: stub, Res: res, States: map[string]bool{}}
+	run := &implRun{Scenario: scn, Stub: stub, Res: res, States: map[string]bool{}, Edges: map[string]bool{}}
+	for _, l := range core.PrintedLines(res.Output, "EDGE ") {
+		s, err := strconv.Unquote(`"` + l + `"`)
+		if err != nil {
+			return nil, core.Infra("MockImpl edge line: %v", err)
+		}
+		var e implEdge
+		if err := json.Unmarshal([]byte(s), &e); err != nil {
+			return nil, core.Infra("MockImpl edge json: %v", err)
+		}
+		run.Edges[fmt.Sprintf("%s --g%d--> %s", canonState(&e.From), e.G, canonState(&e.To))] = true
+	}
 	for _, l := range core.PrintedLines(res.Output, "STATE ") {
 		s, err := strconv.Unquote(`"` + l + `"`)
 		if err != nil {
@@ -203,6 +221,7 @@ func implConformance(sc *core.Scratch, ev *core.Evidence, rep *core.Reporter, mo
 		Scenario    string   `json:"scenario"`
 		Exhaustive  bool     `json:"exhaustive"`
 		GraphStates []string `json:"graphStates"`
+		GraphEdges  []string `json:"graphEdges"`
 		Infra       string   `json:"infra"`
 	}
 	all := make([]*gres, len(jobs))
@@ -255,6 +274,26 @@ func implConformance(sc *core.Scratch, ev *core.Evidence, rep *core.Reporter, mo
 			if !real[s] {
 				onlyModel = append(onlyModel, s)
 			}
+		}
+		// transitions too: (state, goroutine, successor) triples must coincide
+		edgeOnlyReal, edgeOnlyModel := 0, 0
+		realEdges := map[string]bool{}
+		for _, e := range r.GraphEdges {
+			realEdges[e] = true
+			if !model.Edges[e] {
+				edgeOnlyReal++
+			}
+		}
+		for e := range model.Edges {
+			if !realEdges[e] {
+				edgeOnlyModel++
+			}
+		}
+		ev.Add("graph_edges_compared", int64(len(realEdges)))
+		if edgeOnlyReal+edgeOnlyModel > 0 && len(onlyReal) == 0 && len(onlyModel) == 0 {
+			rep.DriftNote(fmt.Sprintf("MockImpl vs %s scenario %q: same states but %d transitions only real, %d only in the model", r.Mock, r.Scenario, edgeOnlyReal, edgeOnlyModel))
+			differ++
+			continue
 		}
 		ev.Add("traces_validated_against_impl", 1)
 		if len(onlyReal) == 0 && len(onlyModel) == 0 {
